@@ -67,6 +67,14 @@ def job(arg):
     for i in range(n):
         v = calc(p, M[i])
         need(v == f[i], "value at minimiser %d is %r, prescribed %r" % (i, v, f[i]))
+    # the same evaluations through ONE caller-owned coordinate buffer that is overwritten in place between the calls (the value
+    # is a function of the point's content, not of the container or of the evaluation history)
+    buf = np.zeros(d, dtype=np.double)
+    pt = Point(buf, [])
+    for i in list(range(n)) + [1, 0]:
+        buf[:] = M[i]
+        v = float(p.Calculate(pt, FunctionValue()).value)
+        need(v == f[i], "value at minimiser %d through a reused coordinate buffer is %r, prescribed %r" % (i, v, f[i]))
     ko = np.array(p.knownOptimum[0].point.floatVariables, dtype=float)
     need(np.array_equal(ko, M[1]) and p.knownOptimum[0].functionValues[0].value == -1.0, "declared optimum = global minimiser, value -1")
     # bit-identical regeneration
